@@ -546,7 +546,7 @@ var routePool = []string{
 
 var serverPool = []string{
 	"2001:db8::53", "2001:db8::54", "fd00::53", "fe80::1", "::", "::", "2001:4860:4860::8888", "::1",
-	"fe80::1%eth0", "fe80::1%eth1", "fe80::53%eth0", // zones are not part of what an RA carries
+	"fe80::1%eth0", "fe80::1%eth1", "fe80::53%eth0", "::%eth0", // zones are not part of what an RA carries
 }
 
 var serverBad = []string{"8.8.8.8", "::ffff:8.8.8.8", "foo", "2001:db8::53/64", ""}
@@ -562,6 +562,17 @@ func uriOfLen(n int) string {
 	base := "https://portal.example/"
 	if n <= len(base) {
 		return "urn:x"
+	}
+	return base + strings.Repeat("a", n-len(base))
+}
+
+// uriEscOfLen: a URI of n bytes as written whose path holds a space and a non-ASCII letter —
+// ndp.NewCaptivePortal percent-encodes both, so the option carries more bytes (n + 2 + 4) than the
+// configuration string has
+func uriEscOfLen(n int) string {
+	base := "https://portal.example/a b/acc\u00e8s/"
+	if n <= len(base) {
+		return base
 	}
 	return base + strings.Repeat("a", n-len(base))
 }
@@ -818,7 +829,8 @@ func genIface(r *vfh.Rand, name string, valid int, small bool) gIface {
 			i.captivePortal = vfh.Pick(r, []string{"https://portal.example/login", "urn:ietf:params:capport:unrestricted", uriOfLen(100), uriOfLen(246)})
 		} else {
 			i.captivePortal = vfh.Pick(r, []string{uriOfLen(245), uriOfLen(246), uriOfLen(247), uriOfLen(248), uriOfLen(255), uriOfLen(256),
-				"http://192.0.2.1/", "https://[2001:db8::1]/x", "::1", "%zz", "http://a b/"})
+				"http://192.0.2.1/", "https://[2001:db8::1]/x", "::1", "%zz", "http://a b/",
+				uriEscOfLen(238), uriEscOfLen(240), uriEscOfLen(241), uriEscOfLen(246)})
 		}
 	}
 	return i
@@ -1103,6 +1115,7 @@ func boundaryConfigs() []gConfig {
 	for l := 240; l <= 257; l++ {
 		l := l
 		add(func(i *gIface) { i.captivePortal = uriOfLen(l) })
+		add(func(i *gIface) { i.captivePortal = uriEscOfLen(l - 8) }) // what is encoded is longer than what is written
 	}
 	for _, sv := range [][]string{{"::", "::"}, {"2001:db8::53", "2001:db8::53"}, {"::", "2001:db8::53"}, {"8.8.8.8"}, {"::ffff:8.8.8.8"}, {}, {"2001:db8::54", "2001:db8::53", "fd00::1"}} {
 		sv := sv
